@@ -152,6 +152,14 @@ def run_batches(oc, r, which, exe, scen, B, env, reqs, pend):
                     oc.violations.append(dict(what="%d consumers waited, %d items were pushed in one burst, only %s consumers were released with an item (lost wake-up)"
                                               % (consumers, consumers, fl["got"]), scenario=list(s), build=which))
                 continue
+            if s[0] == "R":
+                _, rounds, seed = s
+                fl = dict(kv.split("=") for kv in line.partition("|")[2].split())
+                oc.case(("R", rounds, seed), nontrivial=True)
+                oc.stat("one_shot_reply_queue_rounds", rounds)
+                if int(fl["ok"]) != rounds:
+                    oc.violations.append(dict(what="one-shot reply queues: %s of %d replies arrived" % (fl["ok"], rounds), scenario=list(s), build=which))
+                continue
             if s[0] == "W":
                 _, consumers, seed = s
                 fl = dict(kv.split("=") for kv in line.partition("|")[2].split())
@@ -214,7 +222,7 @@ def run(tier):
     proof = proof_status(PROP, thorough)
     oc = Outcome(PROP)
     oc.rule = ("real headers, ThreadSanitizer build: D scenarios = 1-4 producers x 0-12 items, 1-3 workers, destroy after idle (mode 0), at a jittered moment (mode 1), or after idle with an empty pointer dispatched in between by every producer (mode 2), seeded jitter in producers and handler; "
-               "Q scenarios = 1-4 consumers blocked in wait_and_pop then wake_up(); W scenarios = 2-6 consumers blocked, wake_up() with a push() landing right behind it: all released; oracle per execution: no item twice, per-producer order and no overlap (1 worker), everything handled when alive and idle-waited, "
+               "Q scenarios = 1-4 consumers blocked in wait_and_pop then wake_up(); R scenarios = one-shot reply queues (pushed into by another thread, popped and destroyed at once by their owner; 300 rounds each); W scenarios = 2-6 consumers blocked, wake_up() with a push() landing right behind it: all released; oracle per execution: no item twice, per-producer order and no overlap (1 worker), everything handled when alive and idle-waited, "
                "destruction completes before the deadline, no handler activity afterwards, no ThreadSanitizer report; each log replayed as a label sequence on Model/Conc (same hand-off order, all workers exited, nothing lost); "
                "non-trivial = at least 2 items")
     oc.assumptions = TRUSTED
@@ -251,6 +259,8 @@ def run(tier):
             scen.append(("P", r.choice([2, 3, 4]), r.randrange(1 << 30)))
         for k in range(n // 8):
             scen.append(("W", r.choice([2, 3, 4, 6]), r.randrange(1 << 30)))
+        for k in range(max(2, n // 60)):
+            scen.append(("R", 300, r.randrange(1 << 30)))
         # second build: the window between a wait predicate and the actual blocking is widened (no sanitizer)
         scen2 = []
         for k in range(n // 3):
